@@ -24,8 +24,8 @@
    equals the implementation-shaped reference where the property is silent (spec drift).                    *)
 EXTENDS Runner, Json, TLC, TLCExt
 CONSTANT TraceFile
-VARIABLES l, mf, up, rs, store, head, now, wal, bootE, hi, obs, bad
-tvars == <<l, mf, up, rs, store, head, now, wal, bootE, hi, obs, bad>>
+VARIABLES l, mf, up, rs, store, head, now, wal, bootE, hi, lp, obs, bad
+tvars == <<l, mf, up, rs, store, head, now, wal, bootE, hi, lp, obs, bad>>
 
 TraceLog == ndJsonDeserialize(TraceFile)
 Ev == TraceLog[l]
@@ -47,41 +47,41 @@ MFOf(e) == [period |-> e.period, mult2 |-> e.mult2, lookback |-> e.lookback, tab
 ObsAlarm(o) == IF o.alarm.armed THEN o.alarm.at ELSE -1
 
 TInit == /\ l = 1 /\ mf = MF0 /\ up = FALSE /\ rs = Dead /\ store = <<>> /\ head = Head0 /\ now = 0 /\ wal = {}
-         /\ bootE = 0 /\ hi = 0 /\ obs = NoObs /\ bad = {}
+         /\ bootE = 0 /\ hi = 0 /\ lp = 0 /\ obs = NoObs /\ bad = {}
 
 \* ------------------------------------------------------------------ table
 TrTReset == /\ IsEvent("TReset") /\ mf' = MFOf(Ev.mf) /\ store' = MapC(Ev.store) /\ obs' = [kind |-> "TReset"]
-            /\ up' = FALSE /\ rs' = Dead /\ wal' = {} /\ UNCHANGED <<head, now, bootE, hi>>
+            /\ up' = FALSE /\ rs' = Dead /\ wal' = {} /\ lp' = 0 /\ UNCHANGED <<head, now, bootE, hi>>
 TrRow == /\ IsEvent("Row")
          /\ obs' = [kind |-> "Row", known |-> Has(store, Ev.i), i |-> Ev.i, head |-> H(Ev.head), now |-> Ev.now,
                     start |-> Ev.start, rem |-> Ev.rem]
-         /\ UNCHANGED <<mf, up, rs, store, head, now, wal, bootE, hi>>
+         /\ UNCHANGED <<mf, up, rs, store, head, now, wal, bootE, hi, lp>>
 
 \* ------------------------------------------------------------------ histories (loop calls made one at a time)
 TrHReset == /\ IsEvent("HReset") /\ mf' = MFOf(Ev.mf) /\ store' = <<>> /\ head' = H(Ev.head) /\ now' = Ev.now /\ wal' = {}
-            /\ bootE' = Ev.bootE /\ up' = FALSE /\ rs' = Dead /\ hi' = 0 /\ obs' = [kind |-> "HReset"]
+            /\ bootE' = Ev.bootE /\ up' = FALSE /\ rs' = Dead /\ hi' = 0 /\ lp' = 0 /\ obs' = [kind |-> "HReset"]
 TrPut == /\ IsEvent("Put") /\ store' = store \o MapC(Ev.certs)
          /\ obs' = [kind |-> "Put", latest |-> Ev.latest]
-         /\ UNCHANGED <<mf, up, rs, head, now, wal, bootE, hi>>
+         /\ UNCHANGED <<mf, up, rs, head, now, wal, bootE, hi, lp>>
 TrBoot == /\ IsEvent("Boot") /\ rs' = Fresh(wal) /\ up' = FALSE
           /\ obs' = [kind |-> "Boot", self |-> MSet(Ev.self), o |-> Ev.o]
-          /\ UNCHANGED <<mf, store, head, now, wal, bootE, hi>>
+          /\ lp' = 0 /\ UNCHANGED <<mf, store, head, now, wal, bootE, hi>>
 Started(kind, pre, o, e) ==
-  [kind |-> kind, pre |-> pre, hib |-> hi, o |-> o, replay |-> MapM(e.replay), queued |-> MSet(e.queued), err |-> e.err]
+  [kind |-> kind, pre |-> pre, hib |-> hi, lp |-> lp, o |-> o, replay |-> MapM(e.replay), queued |-> MSet(e.queued), err |-> e.err]
 TrCert == /\ IsEvent("Cert")
           /\ LET c == C(Ev.cert) IN
                /\ rs' = OnCert(rs, c, store, head, now, mf)
                /\ obs' = Started("Cert", rs, Ev.o, Ev) @@ [cert |-> c, stored |-> (Has(store, c.inst) /\ Get(store, c.inst) = c)]
-          /\ up' = TRUE /\ hi' = PMax(hi, Ev.o.prog)
+          /\ up' = TRUE /\ hi' = PMax(hi, Ev.o.prog) /\ lp' = Ev.o.prog
           /\ UNCHANGED <<mf, store, head, now, wal, bootE>>
 TrStartAt == /\ IsEvent("StartAt")
              /\ rs' = StartAt([rs EXCEPT !.replay = <<>>], Ev.inst, Ev.at, now)
              /\ obs' = Started("StartAt", rs, Ev.o, Ev) @@ [inst |-> Ev.inst]
-             /\ up' = TRUE /\ hi' = PMax(hi, Ev.o.prog)
+             /\ up' = TRUE /\ hi' = PMax(hi, Ev.o.prog) /\ lp' = Ev.o.prog
              /\ UNCHANGED <<mf, store, head, now, wal, bootE>>
 TrTick == /\ IsEvent("Tick") /\ now' = Ev.now /\ head' = H(Ev.head)
           /\ obs' = [kind |-> "Tick", o |-> Ev.o, back |-> (Ev.now < now)]
-          /\ UNCHANGED <<mf, up, rs, store, wal, bootE, hi>>
+          /\ UNCHANGED <<mf, up, rs, store, wal, bootE, hi, lp>>
 \* an own decision read back from the store after a call during which the participant moved on by itself
 Decision(e) == e.dec.inst >= 0
 StoreAfter(c) == IF Has(store, c.inst) THEN store ELSE Append(store, c)
@@ -96,15 +96,15 @@ TrAlarm ==
            ELSE /\ store' = store
                 /\ rs' = IF begin /\ Ev.err = "" THEN OnAlarm(rs, ObsAlarm(Ev.o))
                          ELSE [rs EXCEPT !.alarm = ObsAlarm(Ev.o), !.replay = <<>>]
-        /\ obs' = [kind |-> "Alarm", pre |-> rs, hib |-> hi, o |-> Ev.o, begin |-> begin, fired |-> Ev.fired, err |-> Ev.err, out |-> Outs(Ev),
+        /\ obs' = [kind |-> "Alarm", pre |-> rs, hib |-> hi, lp |-> lp, o |-> Ev.o, begin |-> begin, fired |-> Ev.fired, err |-> Ev.err, out |-> Outs(Ev),
                    dec |-> Decision(Ev), cert |-> c, agree |-> (Decision(Ev) => (Ev.dec.own = c.epoch /\ (Has(store, c.inst) => Get(store, c.inst) = c)))]
-  /\ hi' = PMax(hi, Ev.o.prog)
+  /\ hi' = PMax(hi, Ev.o.prog) /\ lp' = Ev.o.prog
   /\ UNCHANGED <<mf, up, head, now, wal, bootE>>
 TrBcast == /\ IsEvent("Bcast")
            /\ IF Ev.stored THEN wal' = wal \cup {M(Ev.m)} /\ rs' = OnBroadcast(rs, M(Ev.m))
               ELSE wal' = wal /\ rs' = [rs EXCEPT !.replay = <<>>]
-           /\ obs' = [kind |-> "Bcast", o |-> Ev.o, m |-> M(Ev.m), stored |-> Ev.stored, pre |-> rs, hib |-> hi]
-           /\ hi' = PMax(hi, Ev.o.prog)
+           /\ obs' = [kind |-> "Bcast", o |-> Ev.o, m |-> M(Ev.m), stored |-> Ev.stored, pre |-> rs, hib |-> hi, lp |-> lp]
+           /\ hi' = PMax(hi, Ev.o.prog) /\ lp' = Ev.o.prog
            /\ UNCHANGED <<mf, up, store, head, now, bootE>>
 TrDeliver ==
   /\ IsEvent("Deliver")
@@ -113,12 +113,12 @@ TrDeliver ==
                                /\ rs' = OnDecide(rs, c, store', head, now, mf)
           ELSE /\ store' = store
                /\ rs' = IF rs.inInst THEN [rs EXCEPT !.alarm = ObsAlarm(Ev.o), !.replay = <<>>] ELSE [rs EXCEPT !.replay = <<>>]
-       /\ obs' = [kind |-> "Deliver", pre |-> rs, hib |-> hi, o |-> Ev.o, out |-> Outs(Ev), dec |-> Decision(Ev), cert |-> c,
+       /\ obs' = [kind |-> "Deliver", pre |-> rs, hib |-> hi, lp |-> lp, o |-> Ev.o, out |-> Outs(Ev), dec |-> Decision(Ev), cert |-> c,
                   agree |-> (Decision(Ev) => (Ev.dec.own = c.epoch /\ (Has(store, c.inst) => Get(store, c.inst) = c)))]
-  /\ hi' = PMax(hi, Ev.o.prog)
+  /\ hi' = PMax(hi, Ev.o.prog) /\ lp' = Ev.o.prog
   /\ UNCHANGED <<mf, up, head, now, wal, bootE>>
 TrCrash == /\ IsEvent("Crash") /\ up' = FALSE /\ rs' = Dead /\ obs' = [kind |-> "Crash"]
-           /\ UNCHANGED <<mf, store, head, now, wal, bootE, hi>>
+           /\ lp' = 0 /\ UNCHANGED <<mf, store, head, now, wal, bootE, hi>>
 
 \* ------------------------------------------------------------------ the real Start and event loop
 \* the loop has settled: an alarm that was due has been taken (the instance begun, or the participant's own
@@ -132,23 +132,23 @@ TrLStart ==
   /\ IsEvent("LStart")
   /\ LET r1 == OnStart(wal, store, head, now, mf) IN
        /\ rs' = [Settled(r1, now, Ev.o) EXCEPT !.self = FinalizeTrim(@, store)]
-       /\ obs' = [kind |-> "LStart", pre |-> Fresh(wal), hib |-> hi, o |-> Ev.o, replay |-> MapM(Ev.replay), mreplay |-> r1.replay,
+       /\ obs' = [kind |-> "LStart", pre |-> Fresh(wal), hib |-> hi, lp |-> lp, o |-> Ev.o, replay |-> MapM(Ev.replay), mreplay |-> r1.replay,
                   queued |-> MSet(Ev.o.queued), self |-> MSet(Ev.self), mself |-> r1.self, out |-> Outs(Ev),
                   due |-> (r1.alarm # -1 /\ now >= r1.alarm), first |-> "", ncerts |-> 0]
-  /\ up' = TRUE /\ hi' = PMax(hi, Ev.o.prog)
+  /\ up' = TRUE /\ hi' = PMax(hi, Ev.o.prog) /\ lp' = Ev.o.prog
   /\ UNCHANGED <<mf, store, head, now, wal, bootE>>
 TrLStep ==
   /\ IsEvent("LStep")
   /\ now' = Ev.now /\ head' = H(Ev.head) /\ store' = store \o MapC(Ev.certs)
   /\ LET r1 == IF Ev.certs # <<>> THEN OnCert(rs, Latest(store'), store', head', now', mf) ELSE [rs EXCEPT !.replay = <<>>] IN
        /\ rs' = [Settled(r1, now', Ev.o) EXCEPT !.self = FinalizeTrim(@, store')]
-       /\ obs' = [kind |-> "LStep", pre |-> rs, hib |-> hi, o |-> Ev.o, replay |-> MapM(Ev.replay), mreplay |-> r1.replay,
+       /\ obs' = [kind |-> "LStep", pre |-> rs, hib |-> hi, lp |-> lp, o |-> Ev.o, replay |-> MapM(Ev.replay), mreplay |-> r1.replay,
                   queued |-> MSet(Ev.o.queued), out |-> Outs(Ev), due |-> (r1.alarm # -1 /\ now' >= r1.alarm),
                   first |-> Ev.first, ncerts |-> Len(Ev.certs), back |-> (Ev.now < now)]
-  /\ hi' = PMax(hi, Ev.o.prog)
+  /\ hi' = PMax(hi, Ev.o.prog) /\ lp' = Ev.o.prog
   /\ UNCHANGED <<mf, up, wal, bootE>>
 TrLStop == /\ IsEvent("LStop") /\ up' = FALSE /\ rs' = Dead /\ obs' = [kind |-> "LStop", err |-> Ev.err]
-           /\ UNCHANGED <<mf, store, head, now, wal, bootE, hi>>
+           /\ lp' = 0 /\ UNCHANGED <<mf, store, head, now, wal, bootE, hi>>
 
 TNext == TrTReset \/ TrRow \/ TrHReset \/ TrPut \/ TrBoot \/ TrCert \/ TrStartAt \/ TrTick \/ TrAlarm \/ TrBcast
            \/ TrDeliver \/ TrCrash \/ TrLStart \/ TrLStep \/ TrLStop
@@ -167,18 +167,17 @@ IsStart == obs.kind \in {"Cert", "StartAt"}
 C15_InstanceFollowsFinality ==
   /\ Has_o => /\ obs.o.prog >= rs.fin + 1
               /\ obs.o.prog >= mf.init
-              /\ obs.o.prog >= obs.pre.cur
+              /\ obs.o.prog >= obs.lp                            \* never goes back (lp: the instance observed before)
               /\ obs.o.prog >= obs.hib                           \* ... nor across a restart
-  /\ obs.kind = "Cert" => obs.o.prog = PMax(obs.pre.cur, obs.cert.inst + 1)
+  /\ obs.kind = "Cert" => obs.o.prog = PMax(obs.lp, obs.cert.inst + 1)
   /\ obs.kind = "LStart" => obs.o.prog = (IF store = <<>> THEN mf.init ELSE Latest(store).inst + 1)
-  /\ (obs.kind = "LStep" /\ obs.ncerts > 0) => obs.o.prog = PMax(obs.pre.cur, Latest(store).inst + 1)
+  /\ (obs.kind = "LStep" /\ obs.ncerts > 0) => obs.o.prog = PMax(obs.lp, Latest(store).inst + 1)
   /\ obs.kind \in {"Alarm", "Deliver", "LStart", "LStep"} =>
         \A k \in DOMAIN obs.out : obs.out[k].inst >= obs.pre.fin + 1 /\ obs.out[k].inst >= mf.init
 \* every proposal (QUALITY vote of round 0) the node asks to be signed has the tipset finalized by the previous instance as base
 C15_ProposalBaseIsFinalized ==
-  /\ obs.kind \in {"Alarm", "Deliver", "LStart", "LStep"} =>
-        \A k \in DOMAIN obs.out : (obs.out[k].phase = 1 /\ obs.out[k].round = 0) => obs.out[k].base = PrevEpoch(obs.out[k].inst)
-  /\ (obs.kind = "Alarm" /\ obs.begin /\ obs.out # <<>> /\ obs.out[1].phase = 1) => obs.out[1].inst = obs.pre.cur
+  obs.kind \in {"Alarm", "Deliver", "LStart", "LStep"} =>
+     \A k \in DOMAIN obs.out : (obs.out[k].phase = 1 /\ obs.out[k].round = 0) => obs.out[k].base = PrevEpoch(obs.out[k].inst)
 
 \* conformance with the reference
 ExpRow == NextStart(Get(store, obs.i), store, obs.head, obs.now, mf)
@@ -202,7 +201,8 @@ Conf_ReplayOrder == /\ IsStart => Dedup(obs.replay) = rs.replay
 Conf_Boot == /\ obs.kind = "Boot" => (obs.self = rs.self /\ obs.o.prog = 0 /\ ~obs.o.alarm.armed /\ ~obs.o.begun)
              /\ obs.kind = "LStart" => obs.self = rs.self
 Conf_SelfStore == obs.kind = "Bcast" => {obs.o.selfinsts[k] : k \in DOMAIN obs.o.selfinsts} = {m.inst : m \in rs.self}
-Conf_Begin == /\ (obs.kind = "Alarm" /\ obs.begin /\ obs.err = "") => (obs.out # <<>> /\ obs.out[1].phase = 1 /\ obs.out[1].round = 0)
+Conf_Begin == /\ (obs.kind = "Alarm" /\ obs.begin /\ obs.err = "") =>
+                   (obs.out # <<>> /\ obs.out[1].phase = 1 /\ obs.out[1].round = 0 /\ obs.out[1].inst = obs.pre.cur)
               /\ IsLoop => (obs.o.begun => (obs.due \/ obs.pre.inInst))      \* nothing begins before its time
 \* host.go:195-210: a pending certificate or alarm is served before a pending message
 Conf_Priority == obs.kind = "LStep" => obs.first # "msg"
